@@ -3,24 +3,41 @@ import os, json, ast, inspect
 import cybuild, framework
 
 TITLE = "Compiled functions report faithful names and signatures"
-EXTRACTS = ["ExprPrint"]
+EXTRACTS = ["ExprPrint", "CodeDescr"]
 RULE = ("random default-value expression trees (names, negative/hex/float/imaginary numbers, str/bytes with escapes, "
         "unary/binary/**/comparison chains/and/or/not/conditional/lambda, tuple/list/set/dict displays, attribute/subscript/"
         "call), every operator shape pair and a hand-written list, each placed as a default in module, method, nested and "
         "keyword-only positions of one module compiled with embedsignature+binding; distinct by printed source; random scope "
-        "forests (def/class/lambda, global declarations) for qualified names; str/bytes literals over Latin-1 for repr")
+        "forests (def/class/lambda, global declarations) for qualified names; str/bytes literals over Latin-1 for repr; "
+        "code objects (props/C25_codeobj.py): modules mixing every function kind that gets a code object (def, method, "
+        "static/class method, nested def, lambda, generator, coroutine, async generator - at module level, in classes, "
+        "nested and in cdef classes - cpdef, generator expressions, auto-generated pickle helpers) in which the function "
+        "holding the module-wide maximum of each description field (argcount, posonly, kwonly, nlocals, first line) is of "
+        "each kind in turn, at values 2^k-1, 2^k, 2^k+1, with random *args/**kwargs, default suffixes and keyword-only "
+        "default subsets; distinct by (module, function)")
 EXPLANATION = ("theorems: for every well-formed expression tree the repaired ExpressionWriter's token list is read back to the "
                "same tree by an independent recursive-descent reader of Python's expression grammar (any sufficient fuel); the "
                "generated precedence table equals Python's documented levels (finite); the current printer is refuted by "
                "computed witnesses for each F22 class; the qualified name assigned by the (repaired) transform equals the "
-               "language rule for every scope forest, the current one is refuted for global-declared nested defs. "
+               "language rule for every scope forest, the current one is refuted for global-declared nested defs; "
+               "for every module (list of functions of all kinds) and every function in it, the six numbers of its "
+               "code-object description survive the module-wide bit-field struct (widths = bit lengths of the maxima, "
+               "generator expressions alone left out of the argument maxima), also as a packed bit string, and "
+               "inspect._signature_from_function applied to the resulting code object, __defaults__ and __kwdefaults__ "
+               "returns exactly the declared parameter list (names, kinds, defaults); the variant that leaves all "
+               "generators out of the maxima is refuted. "
                "partial: tokenisation of the rendered text and str/bytes repr are tested against CPython (ast, repr), "
                "not proved; slices, keyword/star call arguments, comprehensions, f-strings and annotations are only "
-               "compared differentially; CythonFunction.c getters are differential only.")
+               "compared differentially; CythonFunction.c getters and the C bit-field / PyCode_New layer are differential "
+               "only (struct widths and initialisers are read from the generated C and compared with the model; code "
+               "object fields, signature, defaults are compared model / compiled module / CPython).")
 TRUSTED = ["CPython ast.parse / inspect.signature / repr as oracles",
            "the lexical layer: rendered text -> tokens (names are identifiers, number texts are literals)",
            "str.isprintable for code points >= 256 (generator uses known printable ones)",
-           "ConstantFolding/parser deliver the tree the generator intends (checked through the printed text itself)"]
+           "ConstantFolding/parser deliver the tree the generator intends (checked through the printed text itself)",
+           "C semantics of unsigned bit-fields (value mod 2^width) and gcc's struct layout; PyCode_NewWithPosOnlyArgs",
+           "inspect._signature_from_function of CPython 3.12 as transcribed in M_CodeDescr.sig_of_code "
+           "(Signature validation errors not modelled)"]
 ASSUMPTIONS = ["CPython 3.12 qualname rule (PEP 709 inlined comprehensions) as the language rule",
                "lambda/genexpr __name__ are outside the property (def functions)"]
 
@@ -714,6 +731,30 @@ def _regc(i, o):
 
 
 def run(ctx):
+    # code objects (props/C25_codeobj.py): translated, built, introspected and pushed through the model in a
+    # background thread; accounted at the end
+    import threading, traceback
+    from props import C25_codeobj as codeobj
+    coW = {}
+    cmodel = ctx.model("codedescr")
+
+    def co_thread():
+        try:
+            coW.update(codeobj.work(ctx.tier, ctx.seed, ctx.workdir, cmodel))
+        except Exception:
+            coW["error"] = "worker raised: " + traceback.format_exc()[-1500:]
+    ct = threading.Thread(target=co_thread)
+    if os.environ.get("C25_NO_CODEOBJ") != "1":      # development switch (timing of the other parts only)
+        ct.start()
+    try:
+        run_main(ctx)
+    finally:
+        if ct.ident is not None:
+            ct.join()
+            codeobj.account(ctx, coW)
+
+
+def run_main(ctx):
     quick = ctx.tier == "quick"
     rng = ctx.rng
     model = ctx.model("exprprint")
